@@ -208,6 +208,14 @@ struct Case {
     /// storage shape of the saved buffer (icyv::shape::perturb code, 0 = as built)
     #[serde(default)]
     shape: u8,
+    /// edited low palette slots: (slot 0..=15, r, g, b) applied to the DOS palette before anything else; Col::D(i) in a
+    /// cell then means "palette slot i", whatever colour it holds
+    #[serde(default)]
+    slots: Vec<(u8, u8, u8, u8)>,
+    /// picture starts with the CP437 characters EF BB BF on default colours followed by 0xB0 (so the file is not valid
+    /// UTF-8); high characters of the picture are kept (box / shade art)
+    #[serde(default)]
+    bom_hi: bool,
 }
 
 // ------------------------------------------------------------------------------------------------ normal form (the grid actually saved)
@@ -219,21 +227,32 @@ struct Norm {
     grid: Vec<Vec<Cell>>,
     pal: u16,
     shape: u8,
+    /// RGB held by the 16 low palette slots
+    slots: Slots,
 }
+
+type Slots = [(u8, u8, u8); 16];
 
 fn dos_rgb(i: u8) -> (u8, u8, u8) {
     DOS_DEFAULT_PALETTE[i as usize & 15].get_rgb()
 }
-fn col_rgb(c: Col) -> (u8, u8, u8) {
+fn dos_slots() -> Slots {
+    let mut s = [(0, 0, 0); 16];
+    for (i, e) in s.iter_mut().enumerate() {
+        *e = dos_rgb(i as u8);
+    }
+    s
+}
+fn col_rgb(c: Col, slots: &Slots) -> (u8, u8, u8) {
     match c {
-        Col::D(i) => dos_rgb(i),
+        Col::D(i) => slots[i as usize & 15],
         Col::X(i) => XTERM_256_PALETTE[i as usize].1.get_rgb(),
         Col::R(r, g, b) => (r, g, b),
         Col::P(k) => pre_rgb(k),
     }
 }
 /// colours that are the same palette entry after `Palette::insert_color` get one spelling
-fn canon(c: Col, pal: u16) -> Col {
+fn canon(c: Col, pal: u16, slots: &Slots) -> Col {
     match c {
         Col::D(i) => Col::D(i & 15),
         Col::P(k) if pal > 0 => Col::P(k % pal),
@@ -241,15 +260,16 @@ fn canon(c: Col, pal: u16) -> Col {
             let (r, g, b) = pre_rgb(k % PAL_MAX);
             Col::R(r, g, b)
         }
-        Col::R(r, g, b) if pal > 0 && !(0..16u8).any(|i| dos_rgb(i) == (r, g, b)) => {
+        Col::R(r, g, b) if pal > 0 && !slots.contains(&(r, g, b)) => {
             // with a large palette the arbitrary colours are its entries around the interesting indices
             let s = special_entries(pal);
             Col::P(s[(r as usize + 3 * g as usize + 7 * b as usize) % s.len()])
         }
         other => {
-            let rgb = col_rgb(other);
+            // (insert_color returns the first palette entry with that RGB)
+            let rgb = col_rgb(other, slots);
             for i in 0..16u8 {
-                if dos_rgb(i) == rgb {
+                if slots[i as usize] == rgb {
                     return Col::D(i);
                 }
             }
@@ -269,11 +289,11 @@ fn encodable(ch: u8, ctrl: u8) -> bool {
 }
 
 /// make a cell legal for the ice mode / control-char handling (construction instead of discarding)
-fn legal_cell(c: Cell, o: &Opts, mask: u8, pal: u16) -> Cell {
+fn legal_cell(c: Cell, o: &Opts, mask: u8, pal: u16, slots: &Slots) -> Cell {
     let Cell(mut ch, fg, bg, fl) = c;
     let mut fl = fl & mask;
-    let fg = canon(fg, pal);
-    let mut bg = canon(bg, pal);
+    let fg = canon(fg, pal, slots);
+    let mut bg = canon(bg, pal, slots);
     match o.ice {
         1 => {
             // blink mode: no high-intensity background entries
@@ -296,6 +316,12 @@ fn normalize(c: &Case) -> Norm {
     let w = if c.opts.sauce { (c.w as usize).clamp(1, 132) } else { 80 };
     let h = c.rows.len().clamp(1, 60);
     let pal = if c.pal == 0 { 0 } else { c.pal.clamp(2, PAL_MAX) };
+    let mut slots = dos_slots();
+    for (k, r, g, b) in &c.slots {
+        // (blue 0x11 is reserved for the large-palette colours)
+        slots[*k as usize & 15] = (*r, *g, if *b == 0x11 { 0x12 } else { *b });
+    }
+    let bom_any = c.bom || c.bom_hi;
     let mut grid = Vec::with_capacity(h);
     for y in 0..h {
         let mut line = Vec::with_capacity(w);
@@ -315,40 +341,44 @@ fn normalize(c: &Case) -> Norm {
             line.resize(w, BLANK);
         }
         for cell in line.iter_mut() {
-            *cell = legal_cell(*cell, &c.opts, c.mask, pal);
-            if c.bom && cell.0 >= 0x80 {
+            *cell = legal_cell(*cell, &c.opts, c.mask, pal, &slots);
+            if c.bom && !c.bom_hi && cell.0 >= 0x80 {
                 cell.0 = b'a' + (cell.0 & 15);
             }
         }
         grid.push(line);
     }
-    if c.bom && w >= 3 {
+    if bom_any && w >= 3 {
         for (i, b) in [0xEFu8, 0xBB, 0xBF].iter().enumerate() {
             grid[0][i] = Cell(*b, Col::D(7), Col::D(0), 0);
         }
+        if c.bom_hi && w >= 4 {
+            grid[0][3] = Cell(0xB0, Col::D(7), Col::D(0), 0); // a lone continuation byte: the file is not UTF-8
+        }
     }
-    Norm { opts: c.opts, w, grid, pal, shape: c.shape % icyv::shape::CODES }
+    Norm { opts: c.opts, w, grid, pal, shape: c.shape % icyv::shape::CODES, slots }
 }
 
 /// re-establish legality after an option of a normal form was changed
 fn relegalize(n: &mut Norm) {
     let o = n.opts;
     let pal = n.pal;
+    let slots = n.slots;
     for row in n.grid.iter_mut() {
         for c in row.iter_mut() {
-            *c = legal_cell(*c, &o, 0xFF, pal);
+            *c = legal_cell(*c, &o, 0xFF, pal, &slots);
         }
     }
 }
 
 // ------------------------------------------------------------------------------------------------ engine round trip
 
-fn pal_index(buf: &mut Buffer, cache: &mut std::collections::HashMap<Col, u32>, c: Col) -> u32 {
+fn pal_index(buf: &mut Buffer, cache: &mut std::collections::HashMap<Col, u32>, c: Col, slots: &Slots) -> u32 {
     match c {
         Col::D(i) => i as u32,
         Col::P(k) => 16 + k as u32,
         other => *cache.entry(other).or_insert_with(|| {
-            let (r, g, b) = col_rgb(other);
+            let (r, g, b) = col_rgb(other, slots);
             buf.palette.insert_color(Color::new(r, g, b))
         }),
     }
@@ -362,6 +392,11 @@ fn build(n: &Norm) -> Buffer {
         1 => IceMode::Blink,
         _ => IceMode::Ice,
     };
+    for (i, (r, g, b)) in n.slots.iter().enumerate() {
+        if (*r, *g, *b) != dos_rgb(i as u8) {
+            buf.palette.set_color(i as u32, Color::new(*r, *g, *b)); // the user edited this palette entry
+        }
+    }
     for k in 0..n.pal {
         let (r, g, b) = pre_rgb(k);
         let idx = buf.palette.insert_color(Color::new(r, g, b));
@@ -370,8 +405,8 @@ fn build(n: &Norm) -> Buffer {
     let mut cache = std::collections::HashMap::new();
     for (y, row) in n.grid.iter().enumerate() {
         for (x, Cell(ch, fg, bg, fl)) in row.iter().enumerate() {
-            let f = pal_index(&mut buf, &mut cache, *fg);
-            let b = pal_index(&mut buf, &mut cache, *bg);
+            let f = pal_index(&mut buf, &mut cache, *fg, &n.slots);
+            let b = pal_index(&mut buf, &mut cache, *bg, &n.slots);
             let mut a = TextAttribute::new(f, b);
             a.set_is_bold(fl & F_BOLD != 0);
             a.set_is_blinking(fl & F_BLINK != 0);
@@ -404,13 +439,14 @@ fn is_blank(ch: u32) -> bool {
     ch == 0 || ch == 32 || ch == 255
 }
 
-/// what the saved model cell shows (bold folded to bright on the DOS entries, as Buffer::render_to_rgba does)
-fn shown_model(c: &Cell) -> Shown {
+/// what the saved model cell shows: the RGB values held by its palette entries (bold on slot 0..=7 shows slot+8, as
+/// Buffer::render_to_rgba does)
+fn shown_model(c: &Cell, slots: &Slots) -> Shown {
     let fg = match c.1 {
-        Col::D(i) if i < 8 && c.3 & F_BOLD != 0 => dos_rgb(i + 8),
-        other => col_rgb(other),
+        Col::D(i) if i < 8 && c.3 & F_BOLD != 0 => slots[i as usize + 8],
+        other => col_rgb(other, slots),
     };
-    Shown { ch: c.0 as u32, fg, bg: col_rgb(c.2), blink: c.3 & F_BLINK != 0 }
+    Shown { ch: c.0 as u32, fg, bg: col_rgb(c.2, slots), blink: c.3 & F_BLINK != 0 }
 }
 
 fn shown_loaded(buf: &Buffer, x: i32, y: i32) -> Shown {
@@ -443,7 +479,8 @@ struct Mis {
 enum Outcome {
     Same,
     /// first mismatch per violated clause, in CLAUSES order; the saved bytes
-    Differs(Vec<Mis>, Vec<u8>),
+    /// (.., the saved file belongs to the class of the open finding c04.utf8_bom_prefix)
+    Differs(Vec<Mis>, Vec<u8>, bool),
     SaveError(String),
     LoadError(String),
     Panic(String, String),
@@ -451,7 +488,7 @@ enum Outcome {
 
 /// compare one cell; returns the violated clauses as (clause index, message)
 fn cell_mismatches(n: &Norm, loaded: &Buffer, x: usize, y: usize, out: &mut Vec<(usize, String)>) {
-    let want = shown_model(&n.grid[y][x]);
+    let want = shown_model(&n.grid[y][x], &n.slots);
     let got = shown_loaded(loaded, x as i32, y as i32);
     let wb = is_blank(want.ch);
     if (wb != is_blank(got.ch)) || (!wb && want.ch != got.ch) {
@@ -478,6 +515,13 @@ fn roundtrip(n: &Norm, probe: Option<(&'static str, usize, usize)>) -> Outcome {
     }
 }
 
+/// The class of the open finding c04.utf8_bom_prefix: the picture data of the file (without SAUCE) starts with the bytes
+/// EF BB BF and is valid UTF-8 as a whole, so the loader takes it for UTF-8 text.
+fn utf8_bom_class(n: &Norm, bytes: &[u8]) -> bool {
+    let data = if n.opts.sauce && bytes.len() >= 129 { &bytes[..bytes.len() - 129] } else { bytes };
+    data.starts_with(&[0xEF, 0xBB, 0xBF]) && std::str::from_utf8(data).is_ok()
+}
+
 fn roundtrip_inner(n: &Norm, probe: Option<(&'static str, usize, usize)>) -> Outcome {
     let orig = build(n);
     let bytes = match orig.to_bytes("ans", &n.opts.save_options()) {
@@ -489,6 +533,7 @@ fn roundtrip_inner(n: &Norm, probe: Option<(&'static str, usize, usize)>) -> Out
         Err(e) => return Outcome::LoadError(e.to_string()),
     };
     let h = n.grid.len();
+    let bom_class = utf8_bom_class(n, &bytes);
     let mut tmp = Vec::new();
     if let Some((clause, x, y)) = probe {
         if clause != "size" {
@@ -499,7 +544,7 @@ fn roundtrip_inner(n: &Norm, probe: Option<(&'static str, usize, usize)>) -> Out
                     tmp.clear();
                     cell_mismatches(n, &loaded, cx, cy, &mut tmp);
                     if let Some((k, msg)) = tmp.drain(..).find(|(k, _)| CLAUSES[*k] == clause) {
-                        return Outcome::Differs(vec![Mis { clause: CLAUSES[k], x: cx, y: cy, msg }], Vec::new());
+                        return Outcome::Differs(vec![Mis { clause: CLAUSES[k], x: cx, y: cy, msg }], Vec::new(), bom_class);
                     }
                 }
             }
@@ -539,7 +584,7 @@ fn roundtrip_inner(n: &Norm, probe: Option<(&'static str, usize, usize)>) -> Out
     if v.is_empty() {
         Outcome::Same
     } else {
-        Outcome::Differs(v, bytes)
+        Outcome::Differs(v, bytes, bom_class)
     }
 }
 
@@ -555,18 +600,18 @@ struct Probe {
 }
 
 /// is the clause still violated at the probe cell or before it (reading order)? returns the message and the cell
-fn still(n: &Norm, p: &Probe) -> Option<(String, usize, usize)> {
+fn still(n: &Norm, p: &Probe) -> Option<(String, usize, usize, bool)> {
     match p.clause {
         "save_error" => match roundtrip(n, None) {
-            Outcome::SaveError(e) => Some((e, 0, 0)),
+            Outcome::SaveError(e) => Some((e, 0, 0, false)),
             _ => None,
         },
         "load_error" => match roundtrip(n, None) {
-            Outcome::LoadError(e) => Some((e, 0, 0)),
+            Outcome::LoadError(e) => Some((e, 0, 0, false)),
             _ => None,
         },
         _ => match roundtrip(n, Some((p.clause, p.x, p.y))) {
-            Outcome::Differs(v, _) => v.into_iter().find(|m| m.clause == p.clause).map(|m| (m.msg, m.x, m.y)),
+            Outcome::Differs(v, _, bc) => v.into_iter().find(|m| m.clause == p.clause).map(|m| (m.msg, m.x, m.y, bc)),
             _ => None,
         },
     }
@@ -621,6 +666,8 @@ enum Step {
     Shape,
     /// no large palette (its colours become ordinary RGB colours inserted on first use)
     Palette,
+    /// low palette slots hold the DOS colours again (all at once, else one by one)
+    Slots,
     /// smallest window of rows around the failing row
     Window,
     /// two rows joined into one (right half of the upper, left half of the lower)
@@ -647,11 +694,17 @@ struct Attr {
     msg: String,
     positional: bool,
     protect_bom: bool,
+    /// the failing file starts with EF BB BF but is NOT valid UTF-8 (not the class of the open finding): simplifications
+    /// that would turn it into that class are refused, so that the key keeps saying what is new
+    guard_bom: bool,
 }
 
 impl Attr {
     fn keep_if_fails(&mut self, cand: Norm, pr: Probe) -> bool {
-        if let Some((m, x, y)) = still(&cand, &pr) {
+        if let Some((m, x, y, bom_class)) = still(&cand, &pr) {
+            if self.guard_bom && bom_class {
+                return false;
+            }
             self.n = cand;
             self.p = Probe { x, y, ..pr };
             self.msg = m;
@@ -682,7 +735,10 @@ impl Attr {
             if c.grid == self.n.grid {
                 continue;
             }
-            if let Outcome::Differs(v, _) = roundtrip(&c, None) {
+            if let Outcome::Differs(v, _, bc) = roundtrip(&c, None) {
+                if self.guard_bom && bc {
+                    continue;
+                }
                 if let Some(m) = v.iter().find(|m| m.clause == "char") {
                     self.n = c;
                     self.p = Probe { clause: "char", x: m.x, y: m.y };
@@ -761,6 +817,29 @@ impl Attr {
                 relegalize(&mut c);
                 let kept = self.keep_if_fails(c, p);
                 (kept, !kept)
+            }
+            Step::Slots => {
+                let dos = dos_slots();
+                if n.slots == dos {
+                    return (false, false);
+                }
+                let mut c = n.clone();
+                c.slots = dos;
+                relegalize(&mut c);
+                if self.keep_if_fails(c, p) {
+                    return (true, false);
+                }
+                let mut any = false;
+                for i in 0..16 {
+                    if self.n.slots[i] != dos[i] {
+                        let mut c = self.n.clone();
+                        c.slots[i] = dos[i];
+                        relegalize(&mut c);
+                        let pr = self.p;
+                        any |= self.keep_if_fails(c, pr);
+                    }
+                }
+                (any, true)
             }
             Step::Window => {
                 let h = n.grid.len();
@@ -1002,18 +1081,19 @@ impl Attr {
 /// window, joining rows, neutralising runs, width 80, feature removals, options towards Opts::BASE, repeated until no
 /// step applies); a step is kept when the same clause is still violated at the same cell. The key names the clause and
 /// the options / features whose removal from the final reduced case makes it pass.
-fn attribute(n0: &Norm, first: &Mis) -> (String, String) {
+fn attribute(n0: &Norm, first: &Mis, bom_class: bool) -> (String, String) {
     let mut a = Attr {
         n: n0.clone(),
         p: Probe { clause: first.clause, x: first.x, y: first.y },
         msg: first.msg.clone(),
         positional: matches!(first.clause, "char" | "blink" | "bg" | "fg"),
         protect_bom: false,
+        guard_bom: has_bom(n0) && !bom_class,
     };
 
     a.try_upgrade();
 
-    let mut steps: Vec<Step> = vec![Step::Shape, Step::Palette, Step::Window, Step::Join, Step::Runs, Step::Width, Step::Window, Step::Join, Step::Runs, Step::Bom, Step::Unmargin, Step::Trailing];
+    let mut steps: Vec<Step> = vec![Step::Shape, Step::Palette, Step::Slots, Step::Window, Step::Join, Step::Runs, Step::Width, Step::Window, Step::Join, Step::Runs, Step::Bom, Step::Unmargin, Step::Trailing];
     steps.extend((0..FEATURES.len()).map(Step::Feature));
     steps.push(Step::AllOpts);
     steps.extend((0..11).map(Step::Opt));
@@ -1061,6 +1141,19 @@ fn attribute(n0: &Norm, first: &Mis) -> (String, String) {
     if needed.iter().any(|s| matches!(s, Step::Palette)) {
         feats.push("large_palette".into());
     }
+    if needed.iter().any(|s| matches!(s, Step::Slots)) {
+        let dos = dos_slots();
+        let ed = |r: std::ops::Range<usize>| r.into_iter().any(|i| a.n.slots[i] != dos[i]);
+        if ed(0..1) {
+            feats.push("edited_slot0".into());
+        }
+        if ed(1..8) {
+            feats.push("edited_low_slot".into());
+        }
+        if ed(8..16) {
+            feats.push("edited_high_slot".into());
+        }
+    }
     for s in &needed {
         if let Step::Feature(i) = s {
             feats.push(FEATURES[*i].0.into());
@@ -1068,7 +1161,7 @@ fn attribute(n0: &Norm, first: &Mis) -> (String, String) {
     }
     for s in &needed {
         match s {
-            Step::Bom => feats.push("utf8_bom_prefix".into()),
+            Step::Bom => feats.push(if a.guard_bom { "bom_start_non_utf8_rest".into() } else { "utf8_bom_prefix".into() }),
             Step::Trailing => feats.push("trailing_blank".into()),
             Step::Opt(i) => opts.push(Opts::name(*i, a.n.opts.get(*i))),
             _ => {}
@@ -1096,7 +1189,18 @@ fn attribute(n0: &Norm, first: &Mis) -> (String, String) {
         if feats.is_empty() { "-".to_string() } else { feats.join("+") },
         if opts.is_empty() { "-".to_string() } else { opts.join("+") }
     );
-    let reduced = format!("reduced witness: opts={} w={} shape={} palette+{} rows={} -> {}", a.n.opts.tag(), a.n.w, shape_name(a.n.shape), a.n.pal, compact_rows(&a.n.grid), a.msg);
+    let dos = dos_slots();
+    let edits: Vec<String> = (0..16).filter(|i| a.n.slots[*i] != dos[*i]).map(|i| format!("{i}:{:?}", a.n.slots[i])).collect();
+    let reduced = format!(
+        "reduced witness: opts={} w={} shape={} palette+{} edited_slots=[{}] rows={} -> {}",
+        a.n.opts.tag(),
+        a.n.w,
+        shape_name(a.n.shape),
+        a.n.pal,
+        edits.join(" "),
+        compact_rows(&a.n.grid),
+        a.msg
+    );
     (key, reduced)
 }
 
@@ -1165,28 +1269,40 @@ fn check(c: &Case) -> Verdict {
     let n = normalize(c);
     match roundtrip(&n, None) {
         Outcome::Same => {
-            // option tag for plain buffers, shape name for perturbed ones (the product would be ~37k classes)
-            let mut class = if n.shape != 0 { format!("shape/{}", shape_name(n.shape)) } else { n.opts.tag() };
-            if c.steered {
-                class.push('~');
-            }
+            // one dimension per case (the product would be tens of thousands of classes): BOM-looking start, storage
+            // shape, large palette, edited palette slots; the option tag for all other buffers
+            let class = if has_bom(&n) {
+                "bom_start_ok".to_string()
+            } else if c.steered && n.w >= 3 && n.grid[0][0].0 == b'A' && n.grid[0][1].0 == 0xBB && n.grid[0][2].0 == 0xBF {
+                "bom_steered_away".to_string()
+            } else if n.shape != 0 {
+                format!("shape/{}", shape_name(n.shape))
+            } else if n.pal != 0 {
+                "large_palette".to_string()
+            } else if n.slots != dos_slots() {
+                "edited_palette_slots".to_string()
+            } else if c.steered {
+                format!("{}~", n.opts.tag())
+            } else {
+                n.opts.tag()
+            };
             Verdict::pass(nontrivial(&n), class)
         }
         Outcome::Panic(sig, msg) => Verdict::fail(sig, format!("opts={} {msg}", n.opts.tag())),
         Outcome::SaveError(e) => {
             let m = Mis { clause: "save_error", x: 0, y: 0, msg: e };
-            let (key, red) = attribute(&n, &m);
+            let (key, red) = attribute(&n, &m, false);
             Verdict::fail(key, format!("to_bytes(\"ans\") failed: {}; {red}", m.msg))
         }
         Outcome::LoadError(e) => {
             let m = Mis { clause: "load_error", x: 0, y: 0, msg: e };
-            let (key, red) = attribute(&n, &m);
+            let (key, red) = attribute(&n, &m, false);
             Verdict::fail(key, format!("from_bytes(\"x.ans\") failed on the engine's own output: {}; {red}", m.msg))
         }
-        Outcome::Differs(v, bytes) => {
+        Outcome::Differs(v, bytes, bom_class) => {
             // key by the earliest violated cell in reading order (where the damage starts); size first, ties by clause order
             let first = v.iter().find(|m| m.clause == "size").unwrap_or_else(|| v.iter().min_by_key(|m| (m.y, m.x)).unwrap());
-            let (key, red) = attribute(&n, first);
+            let (key, red) = attribute(&n, first, bom_class);
             let cut = bytes.len().min(200);
             Verdict::fail(
                 key,
@@ -1430,7 +1546,15 @@ fn steer(n: &mut Norm, s: &Steer) -> bool {
         }
     }
     if s.bom && has_bom(n) {
-        n.grid[0][0].0 = b'A';
+        // exactly the class of the open finding: nothing written in front of EF BB BF and the whole file valid UTF-8
+        // (decided on the bytes the writer produces); every other picture that starts with EF BB BF stays
+        let in_class = match icyv::panics::guarded(|| build(n).to_bytes("ans", &n.opts.save_options())) {
+            Ok(Ok(bytes)) => utf8_bom_class(n, &bytes),
+            _ => false,
+        };
+        if in_class {
+            n.grid[0][0].0 = b'A';
+        }
     }
     n.grid != before
 }
@@ -1457,16 +1581,32 @@ fn cases(st: Steer) -> BoxedStrategy<Case> {
     // palette indices beyond 255 / 511); ~40% are stored in one of the perturbed shapes
     let pal = prop_oneof![36 => Just(0u16), 1 => Just(250u16), 1 => Just(520u16), 2 => 250u16..=520];
     let shape = prop_oneof![6 => Just(0u8), 4 => 1u8..icyv::shape::CODES];
-    (OptSeq { next: AtomicU64::new(0) }, w, mask(), proptest::bool::weighted(0.012), rows(), pal, shape)
-        .prop_map(move |(opts, w, mask, bom, rows, pal, shape)| {
-            let c = Case { opts, w, mask, bom, rows, steered: false, pal, shape };
+    // edited low palette slots (~20% of the buffers): one, a few or most of the 16 slots hold another colour
+    let slot = prop_oneof![4 => 1u8..=7, 1 => Just(0u8), 3 => 8u8..16];
+    let content = prop_oneof![
+        3 => (comp(), comp(), comp()),
+        2 => (0u8..16).prop_map(dos_rgb),                                  // the colour of another DOS entry (swap / duplicate)
+        1 => any::<u8>().prop_map(|i| XTERM_256_PALETTE[i as usize].1.get_rgb()),
+    ];
+    let edit = (slot, content).prop_map(|(k, (r, g, b))| (k, r, g, b));
+    let slots = prop_oneof![
+        16 => Just(Vec::new()),
+        2 => proptest::collection::vec(edit.clone(), 1),
+        1 => proptest::collection::vec(edit.clone(), 2..=4),
+        1 => proptest::collection::vec(edit, 8..=16),
+    ];
+    // (bom, bom_hi): 1.2% BOM-looking start with a 7-bit rest, 4% BOM-looking start with high-byte art
+    let bom = prop_oneof![948 => Just((false, false)), 12 => Just((true, false)), 40 => Just((false, true))];
+    (OptSeq { next: AtomicU64::new(0) }, w, mask(), bom, rows(), pal, shape, slots)
+        .prop_map(move |(opts, w, mask, (bom, bom_hi), rows, pal, shape, slots)| {
+            let c = Case { opts, w, mask, bom, rows, steered: false, pal, shape, slots, bom_hi };
             if !st.any() {
                 return c;
             }
             let mut n = normalize(&c);
             if steer(&mut n, &st) {
                 // the steered grid, spelled out (normalize() of it is the grid itself)
-                Case { opts, w: n.w as u8, mask: 0xFF, bom: false, rows: encode(&n), steered: true, pal, shape }
+                Case { opts, w: n.w as u8, mask: 0xFF, bom: false, rows: encode(&n), steered: true, pal, shape, slots: c.slots.clone(), bom_hi: false }
             } else {
                 c
             }
@@ -1526,6 +1666,17 @@ fn minimize(c: &Case) -> Vec<Case> {
     }
     if c.shape != 0 {
         out.push(Case { shape: 0, ..c.clone() });
+    }
+    if !c.slots.is_empty() {
+        out.push(Case { slots: Vec::new(), ..c.clone() });
+        for i in 0..c.slots.len() {
+            let mut d = c.clone();
+            d.slots.remove(i);
+            out.push(d);
+        }
+    }
+    if c.bom_hi {
+        out.push(Case { bom_hi: false, ..c.clone() });
     }
     if c.pal != 0 {
         out.push(Case { pal: 0, ..c.clone() });
